@@ -24,6 +24,38 @@ func LazyState(p *load.Program, run *report.Run, pkgs []string, frozen map[strin
 	forEachFunc(p, pkgs, nil, func(c *fnCtx) {
 		info := c.pkg.TypesInfo
 		ast.Inspect(c.fd.Body, func(n ast.Node) bool {
+			// state published through an atomic cell: x.f.Store(v) / CompareAndSwap / Swap on a
+			// field whose type comes from sync/atomic
+			if call, ok := n.(*ast.CallExpr); ok {
+				if m, ok := call.Fun.(*ast.SelectorExpr); ok && (m.Sel.Name == "Store" || m.Sel.Name == "CompareAndSwap" || m.Sel.Name == "Swap") {
+					if sel, ok := ast.Unparen(m.X).(*ast.SelectorExpr); ok {
+						if fld, ok := info.ObjectOf(sel.Sel).(*types.Var); ok && fld.IsField() {
+							if nt, ok := fld.Type().(*types.Named); ok && nt.Obj().Pkg() != nil && nt.Obj().Pkg().Path() == "sync/atomic" && (nt.Obj().Name() == "Pointer" || nt.Obj().Name() == "Value") {
+								owner := "?"
+								if t := info.TypeOf(sel.X); t != nil {
+									if pt, ok := t.(*types.Pointer); ok {
+										t = pt.Elem()
+									}
+									if on, ok := t.(*types.Named); ok {
+										owner = on.Obj().Pkg().Name() + "." + on.Obj().Name()
+									}
+								}
+								key := owner + "." + fld.Name()
+								if !seen[key] {
+									seen[key] = true
+									run.Count("kept-fields", 1)
+									if why, ok := frozen[key]; ok {
+										run.OK("kept-state-inventory", key, c.p.Rel(call.Pos()), "listed: "+why)
+									} else {
+										run.Undecided("kept-state-inventory", key, c.p.Rel(call.Pos()), fmt.Sprintf("%s publishes %s through an atomic cell and keeps it: later calls on the object inherit its contents, and no rule covers what it holds then (not in the inventory of kept state)", c.name, key))
+									}
+								}
+							}
+						}
+					}
+				}
+				return true
+			}
 			ifs, ok := n.(*ast.IfStmt)
 			if !ok {
 				return true
